@@ -64,6 +64,7 @@ type Contract struct {
 	Lets       []*Clause // Label = name
 	Loops      map[int]*LoopSpec
 	Trusted    bool
+	Default    bool // synthesized default contract of an uncontracted function with loops
 	NoAlloc    bool // nothing allocated by a call is reachable afterwards: the allocation counter is unchanged for the caller
 	Inline     bool
 	Where      string
